@@ -36,6 +36,9 @@ EXPLANATION = (
   ' (STATE-share) no assignment stores a container field of one object (a field the package updates in place) into a field of another object without copying it, so an in-place update of one object never changes another;'
   " (ITEM-source) an object built once per item of an inner loop is filled only with values that derive from that item or do not vary with the loops, never with a value of the enclosing container standing where the item's own belongs;"
   " (NUL-arg) the result of a getter that returns None for a missing entry (get_style, get_initial_value, ...) is never passed straight into a function that dereferences that parameter without a None test, unless the key is drawn from the same container's own keys;"
+  ' (LOOP-break) no loop over the items of a collection is left by a branch that does nothing but `break` on a test about the item (end-of-input sentinels, flags set in the loop body and searches whose variable is read afterwards excepted): an item that is to be skipped does not end the processing of the items after it;'
+  ' (FIN-haspx) each has_px() over a style value with several lengths (extent, origin, padding, position), evaluated with exactly one length in px and with none, reports px exactly when some length is in px;'
+  ' (FIN-wholeframes) as in C12: frame syntaxes are written from the whole number of complete frames, so no frame field reaches the frame rate;'
 )
 RULE_TEXT = "per element kind, per style property, per Enum member, per special-value access, per time syntax sample"
 UNDECIDED = ["snapshot equality after re-reading", "numeric precision of written lengths (:g formatting)", "font-family quoting round trip", "times move by less than one unit and never change order"]
@@ -596,6 +599,50 @@ def check_px_scan(ctx):
             "the pixel-length scan no longer covers all regions and all elements of the body")
 
 
+def check_has_px(ctx):
+  """FIN-haspx: a style value with several lengths uses pixels if ANY of its lengths does.  For every has_px() whose
+  parameter is annotated with a dataclass of style_properties.py that has two or more LengthType fields, the method is
+  evaluated with exactly one of those fields in px (all others in %) and with none in px."""
+  from ..consteval import FuncEval, NotConst, Raised, EnumMember, Sym
+  ix = ctx.ix
+  sp = ix.mod("ttconv.style_properties")
+  units = ix.cls("ttconv.style_properties:LengthType.Units")
+  px = EnumMember(units.qualname, "px", "px")
+  pct = EnumMember(units.qualname, "pct", "%")
+  n = 0
+  for f in ix.funcs_in("ttconv.imsc.style_properties"):
+    if f.name != "has_px" or len(f.params) < 2:
+      continue
+    par = f.params[1]
+    ann = next((a.annotation for a in f.node.args.args if a.arg == par), None)
+    tname = unparse(ann).split(".")[-1] if ann is not None else None
+    tcls = ix.classes.get(f"ttconv.style_properties:{tname}") if tname else None
+    if tcls is None:
+      continue
+    fields = [k for k, a in tcls.ann.items() if unparse(a).split(".")[-1] == "LengthType"]
+    if len(fields) < 2:
+      continue
+    ctx.unit(f.module)
+    wrong = []
+    for hot in fields + [None]:
+      env = {par: Sym("value")}
+      for k in fields:
+        env[f"{par}.{k}.units"] = px if k == hot else pct
+      try:
+        v = FuncEval(ix).call(f, dict(env, **{f.params[0]: None}))
+      except Raised:
+        v = "raises"
+      except NotConst as e:
+        raise AnalysisError(f"{f.qualname}: leaves the evaluable subset ({e})")
+      if bool(v) != (hot is not None) or v == "raises":
+        wrong.append(f"only {hot} in px -> {v}" if hot else f"no px -> {v}")
+    n += 1
+    ctx.check(not wrong, "FIN-haspx", f"{f.qualname}|px in any of {fields}", ctx.where(f.module, f.node), f"{len(fields) + 1} assignments of units evaluated",
+              f"{f.short} does not report a pixel length in every component of {tname}: " + "; ".join(wrong) + " - tts:extent is then not written on <tt> although the document uses px, and px lengths read back against 1920x1080")
+  ctx.floor("FIN-haspx", "has_px methods over multi-length values", n, 4)
+  ctx.extra["finite_domain_evaluations"] = ctx.extra.get("finite_domain_evaluations", 0) + n
+
+
 def run(ctx):
   ix = ctx.ix
   check_writer_dispatch(ctx)
@@ -604,6 +651,9 @@ def run(ctx):
   check_list_separators(ctx)
   check_doc_params(ctx)
   check_px_scan(ctx)
+  check_has_px(ctx)
+  from . import c12 as _c12w
+  _c12w.check_whole_frames(ctx)
   check_special_emission(ctx)
   check_space_written(ctx)
   check_cell_resolution_written(ctx)
